@@ -5,6 +5,7 @@ import Mathlib.Tactic.Linarith
 import Mathlib.Algebra.Order.Field.Basic
 import Mathlib.Algebra.Order.Field.Rat
 import OtelVerif.Lemmas.SeriesStore
+import OtelVerif.Lemmas.SeriesKey
 import OtelVerif.Model.HistogramStore
 /-! # C07 — histogram points are exact summaries of the recorded values
 
@@ -214,6 +215,14 @@ theorem counts_eq_spec (k : Kind) (cfg : Option Config) (vs : List Rat) (hs : So
   simp only [beq_iff_eq, decide_eq_true_eq]
   rw [bucket_unique hs v i]
   exact eq_comm
+
+/-- floating instruments: `counts[i]` is the number of recorded values `v` with `b[i-1] < v ≤ b[i]` -/
+theorem counts_eq_spec_double (cfg : Option Config) (vs : List Rat) (hs : Sorted (new .double cfg).boundaries) :
+    (hist .double cfg vs).counts = specCounts (new .double cfg).boundaries vs := by
+  have h := counts_eq_spec .double cfg vs hs
+  have hm : vs.map Kind.double.conv = vs := by
+    rw [show Kind.double.conv = id from funext fun _ => rfl, List.map_id]
+  rw [hm] at h; exact h
 
 theorem sum_indicator (k : Nat) : ∀ n, k < n → ((List.range n).map fun i => if k = i then 1 else 0).sum = 1 := by
   intro n
@@ -429,6 +438,20 @@ theorem bucket_spec_long_partial {bs : List Rat} (hs : Sorted bs) (i : Int) (h :
     InBucket bs (bucket (Kind.long.conv (i : Rat)) bs) (i : Rat) := by
   rw [conv_long_exact i h]; exact bucket_inBucket hs _
 
+/-- integer instruments, values up to 2^53 in magnitude: `counts[i]` is the number of recorded values `v` with
+    `b[i-1] < v ≤ b[i]` -/
+theorem counts_eq_spec_long_partial (cfg : Option Config) (is : List Int) (hs : Sorted (new .long cfg).boundaries)
+    (hr : ∀ i ∈ is, i.natAbs ≤ 2 ^ 53) :
+    (hist .long cfg (longVals is)).counts = specCounts (new .long cfg).boundaries (longVals is) := by
+  have h := counts_eq_spec .long cfg (longVals is) hs
+  have hm : (longVals is).map Kind.long.conv = longVals is := by
+    unfold longVals
+    rw [List.map_map]
+    apply List.map_congr_left
+    intro i hi
+    exact conv_long_exact i (hr i hi)
+  rw [hm] at h; exact h
+
 example : ((5 : Int)).natAbs ≤ 2 ^ 53 := by decide
 
 /-- … and beyond it does not: 2^53+1 is compared as 2^53 and lands below the boundary 2^53 -/
@@ -611,7 +634,7 @@ theorem storage_conserves_count {K : Type} [DecidableEq K] (k : Kind) (cfg : Opt
     (ops : List (Op K Rat)) (hops : ∀ r, Op.collect r ∈ ops → r < temps.length) :
     let c : Cfg K Point Rat := { ag := histAgg k cfg, ovf := ovf, limit := limit, temps := temps, iter := iter }
     ((Store.run c (Store.init c) ops).2.map fun o => (o.1, outTotal (fun p : Point => p.count) o.2)) =
-      specTotals c (fun _ => 1) (fun _ => 0) 0 ops := by
+      specTotals c (fun _ _ => 1) (fun _ => 0) 0 ops := by
   intro c
   exact run_totals c (countMeasure k cfg) hiter ops (Store.init c) (fun _ => 0) 0 (sinv_init c (countMeasure k cfg)) hops
 
@@ -621,8 +644,25 @@ theorem storage_conserves_sum {K : Type} [DecidableEq K] (k : Kind) (cfg : Optio
     (ops : List (Op K Rat)) (hops : ∀ r, Op.collect r ∈ ops → r < temps.length) :
     let c : Cfg K Point Rat := { ag := histAgg k cfg, ovf := ovf, limit := limit, temps := temps, iter := iter }
     ((Store.run c (Store.init c) ops).2.map fun o => (o.1, outTotal (fun p : Point => p.sum) o.2)) =
-      specTotals c (fun v => v) (fun _ => 0) 0 ops := by
+      specTotals c (fun _ v => v) (fun _ => 0) 0 ops := by
   intro c
   exact run_totals c (sumMeasure k cfg) hiter ops (Store.init c) (fun _ => 0) 0 (sinv_init c (sumMeasure k cfg)) hops
+
+open Otel.Series in
+/-- per series, below the cardinality limit: the point reported for attribute set `k0` has as `count` the number of
+    values recorded with `k0` in the reader's interval (delta) / so far (cumulative), and as `sum` their sum — for every
+    history of collection cycles and readers.  (Its buckets, min and max are then those of `hist` of these values:
+    the storage only applies `aggregate` and `merge`, and `mergeL_hom`, `hist_perm` say what that gives.) -/
+theorem storage_series_count_and_sum {K : Type} [DecidableEq K] (k : Kind) (cfg : Option Config) (ovf : K) (limit : Nat)
+    (temps : List Temporality) (iter : List (K × Point) → List (K × Point)) (hiter : ∀ l, (iter l).Perm l)
+    (ops : List (Op K Rat)) (hops : ∀ r, Op.collect r ∈ ops → r < temps.length) (hroom : recordCount ops + 1 < limit) (k0 : K) :
+    let c : Cfg K Point Rat := { ag := histAgg k cfg, ovf := ovf, limit := limit, temps := temps, iter := iter }
+    ((Store.run c (Store.init c) ops).2.map fun o => (o.1, outKey k0 (fun p : Point => p.count) o.2)) =
+      specTotals c (fun k' _ => if k' = k0 then 1 else 0) (fun _ => 0) 0 ops ∧
+    ((Store.run c (Store.init c) ops).2.map fun o => (o.1, outKey k0 (fun p : Point => p.sum) o.2)) =
+      specTotals c (fun k' v => if k' = k0 then v else 0) (fun _ => 0) 0 ops := by
+  intro c
+  exact ⟨run_key_totals k0 c (countMeasure k cfg) hiter ops (Store.init c) (fun _ => 0) 0 0 (sinvK_init k0 c (countMeasure k cfg)) (by show 0 + recordCount ops + 1 < limit; omega) hops,
+    run_key_totals k0 c (sumMeasure k cfg) hiter ops (Store.init c) (fun _ => 0) 0 0 (sinvK_init k0 c (sumMeasure k cfg)) (by show 0 + recordCount ops + 1 < limit; omega) hops⟩
 
 end Otel.C07
